@@ -12,7 +12,9 @@
          5 AtomicBitmap                       params [byte_size, page_size]
          6 GuestAddress                       params []
          7 AtomicBitmap::new(byte_size, page_size) then enlarge(k)   params [byte_size, page_size, k], byte_size + k < 2^64
-     ty  0..3 = u8 u16 u32 u64 (size = align = 2^ty)
+         8 ByteValued::as_bytes() of an object   params [pre, oc]  object of type oc (0 u8 1 u16 2 u32 3 u64 4 [u8;3]
+           5 [u8;16] 6 u128) living at arena + pre (pre a multiple of its alignment); the VolatileSlice over its bytes
+     ty  0..3 = u8 u16 u32 u64 (size = align = 2^ty);  ops 65..69 also 4 = [u8;3], 5 = [u8;16] (align 1)
      op  (VolatileMemory / VolatileSlice)
          0 get_slice(a,b)  1 subslice(a,b)  2 offset(a)  3 split_at(a)  4 get_ref<T>(a)
          5 get_array_ref<T>(a,b)  6 get_atomic_ref<T>(a)  7 aligned_as_ref<T>(a)
@@ -35,9 +37,21 @@
          54 is_bit_set(a)  55 is_addr_set(a)  56 RefSlice(base c).mark_dirty(a,b)
          57 RefSlice(base c).dirty_at(a)  58 RefSlice(base c).slice_at(a).dirty_at(b)
          (Address)
-         60 checked_align_up(a, b) *)
+         60 checked_align_up(a, b)
+         (stream entry points with the crate's OWN adapters as the stream; [script] = [kind, dlen, pos]:
+          kind 0 &[u8] = data[pos..]  1 &mut [u8] = data[pos..]  2 Vec<u8> of dlen bytes  3 Cursor<&[u8]>  4 Cursor<&mut [u8]>
+          5 Cursor<Vec<u8>>  6 File of dlen bytes seeked to pos;  a Cursor's position is ANY u64, also past the end)
+         61 read_volatile_from(a, stream, count b)   62 read_exact_volatile_from   63 write_volatile_to   64 write_all_volatile_to
+         (typed bulk copies; local buffer of c elements)
+         65 get_slice(a,b) then copy_to::<T>(buf)   66 get_slice(a,b) then copy_from::<T>(buf)
+         67 get_array_ref<T>(a,b) then copy_to(buf)   68 ... then copy_from(buf)
+         69 get_array_ref<T>(a,b) then copy_to_volatile_slice(get_slice(c, len - c))
+         (bitmap views)
+         70 RefSlice(base c).slice_at(a).slice_at(b).mark_dirty(a,b)   71 ... .dirty_at(b)
+         72 Some(bitmap).mark_dirty(a,b)  73 Some(bitmap).dirty_at(a)  74 Some(bitmap).slice_at(c).mark_dirty(a,b)
+         75 Some(bitmap).slice_at(c).dirty_at(a)  76 None::<AtomicBitmap>: mark_dirty(a,b), dirty_at(a), slice_at(c).mark_dirty(a,b) *)
 From VM Require Import Prelude.MachInt Prelude.Outcome Prelude.Tok Prelude.C1314List.
-From VM Require Impl.Address Impl.Volatile Impl.VolMem Impl.Guest Impl.Bitmap Impl.Io Impl.IoGuest.
+From VM Require Impl.Address Impl.Volatile Impl.VolMem Impl.Guest Impl.Bitmap Impl.Io Impl.IoGuest Impl.IoEnd.
 From VM Require Spec.C14 Suite.C14.
 From VM Require Import Spec.C07.
 
@@ -57,12 +71,19 @@ Definition ety_of (ty : N) : Volatile.ety := {| Volatile.e_size := 2 ^ ty; Volat
 Definition vty_of (ty : N) : VolMem.vty := {| VolMem.ty_size := 2 ^ ty; VolMem.ty_be := false |}.
 Definition zeros (n : N) : list N := repeat 0 (N.to_nat n).
 
+(* the object types of target kind 8 (ByteValued::as_bytes): size and alignment *)
+Definition osize (oc : N) : N :=
+  match oc with 0 => 1 | 1 => 2 | 2 => 4 | 3 => 8 | 4 => 3 | 5 => 16 | 6 => 16 | _ => 0 end.
+Definition oalign (oc : N) : N :=
+  match oc with 1 => 2 | 2 => 4 | 3 => 8 | 6 => 16 | _ => 1 end.
+
 (* ------------------------------------------------------------------ accessor geometry *)
 Definition geom_root (c : case07) : option Volatile.accessor :=
   match q_tgt c, q_par c with
   | 0, [pre; n] => Some (Volatile.ASlice (Volatile.VS (HB + pre) n))
   | 1, [A; n] => Some (Volatile.ASlice (Volatile.VS A n))
   | 2, [_; n] => Some (Volatile.ARegion (Volatile.RG HB n))
+  | 8, [pre; oc] => Some (Volatile.ASlice (Volatile.VS (HB + pre) (osize oc)))
   | _, _ => None
   end.
 Definition geom_ops (c : case07) : option (list Volatile.dop) :=
@@ -131,6 +152,84 @@ Definition stream_cls (c : case07) : N :=
   | None => 2
   end.
 
+(* ------------------------------------------------------------------ typed bulk copies (Impl/VolMem.v)
+   element types: 0..3 = u8..u64, 4 = [u8;3], 5 = [u8;16]; the local buffer holds c elements *)
+Definition tsize (ty : N) : N := if ty =? 4 then 3 else if ty =? 5 then 16 else 2 ^ ty.
+Definition vty2 (ty : N) : VolMem.vty := {| VolMem.ty_size := tsize ty; VolMem.ty_be := false |}.
+Definition copy_cls (m : mode) (pre n op ty a b c : N) : N :=
+  let h := heap0 pre n in
+  let s := {| VolMem.vs_addr := pre; VolMem.vs_size := n |} in
+  let t := vty2 ty in
+  let arr_then (k : VolMem.varr -> N) : N :=
+    match VolMem.vs_get_array_ref s (tsize ty) a b with
+    | Val (VolMem.Ok arr) => k arr
+    | Val (VolMem.Err _) => 1
+    | _ => 2 end in
+  match op with
+  | 65 => match VolMem.vs_get_slice s a b with
+          | VolMem.Ok sl => cls_out cls0 (VolMem.vs_copy_to m h sl t (zeros c))
+          | VolMem.Err _ => 1 end
+  | 66 => match VolMem.vs_get_slice s a b with
+          | VolMem.Ok sl => cls_out cls0 (VolMem.vs_copy_from m h sl t (zeros c))
+          | VolMem.Err _ => 1 end
+  | 67 => arr_then (fun arr => cls_out cls0 (VolMem.va_copy_to m h arr t (zeros c)))
+  | 68 => arr_then (fun arr => cls_out cls0 (VolMem.va_copy_from m h arr t (zeros c)))
+  | 69 => arr_then (fun arr =>
+            match VolMem.vs_get_slice s c (n - c) with                   (* get_slice(c, len.saturating_sub(c)) *)
+            | VolMem.Ok dsl => cls_out cls0 (VolMem.va_copy_to_volatile_slice m h arr (tsize ty) dsl)
+            | VolMem.Err _ => 1 end)
+  | _ => 2
+  end.
+
+(* ------------------------------------------------------------------ stream transfers with the crate's own endpoints
+   (Impl/IoEnd.v over the adapters of Impl/Io.v); [q_x] = [kind, dlen, pos] *)
+Definition rk_of (k : N) : option IoEnd.rkind :=
+  if k =? 0 then Some IoEnd.RSlice
+  else if (3 <=? k) && (k <=? 5) then Some IoEnd.RCursor
+  else if k =? 6 then Some IoEnd.RFile else None.
+Definition wk_of (k : N) : option IoEnd.wkind :=
+  if k =? 1 then Some IoEnd.WSlice else if k =? 2 then Some IoEnd.WVec
+  else if k =? 4 then Some IoEnd.WCursor else if k =? 6 then Some IoEnd.WFile else None.
+Definition oxfer_of (op k : N) : option IoEnd.oxfer :=
+  if op =? 61 then option_map IoEnd.XRdUpTo (rk_of k)
+  else if op =? 62 then option_map IoEnd.XRdExact (rk_of k)
+  else if op =? 63 then option_map IoEnd.XWrUpTo (wk_of k)
+  else if op =? 64 then option_map IoEnd.XWrAll (wk_of k)
+  else None.
+Definition otarget_of (c : case07) : option (IoEnd.otarget * N) :=     (* target, host bytes *)
+  match q_tgt c, q_par c with
+  | 0, [pre; n] => Some (IoEnd.OSlice pre n, pre + n)
+  | 2, [g; n] => Some (IoEnd.ORegion {| IoGuest.g_start := g; IoGuest.g_len := n; IoGuest.g_moff := 0 |}, n)
+  | 3, par => match Suite.C14.parse_regions par 0 with
+              | Some L => Some (IoEnd.OGuest L, Suite.C14.total_len L)
+              | None => None end
+  | _, _ => None
+  end.
+Definition own_fuel (t : IoEnd.otarget) : nat := S (S (N.to_nat (IoEnd.tbytes t))).
+Definition own_cls (c : case07) : N :=
+  match otarget_of c, q_x c with
+  | Some (t, ml), [k; dlen; pos] =>
+      match oxfer_of (q_op c) k with
+      | Some x => cls_out snd (IoEnd.own_exec (q_mode c) (own_fuel t) t x
+                                 {| Io.s_data := zeros dlen; Io.s_pos := pos; Io.s_out := [] |} (zeros ml) (q_a c) (q_b c))
+      | None => 2 end
+  | _, _ => 2
+  end.
+(* legitimate endpoints: a slice is data[pos..] (pos <= dlen), a File is seeked to at most one byte past its
+   end, a Vec<u8> and the guest memory fit usize together; a Cursor sits ANYWHERE in [0, 2^64) *)
+Definition own_wf (c : case07) : bool :=
+  match otarget_of c, q_x c with
+  | Some (t, _), [k; dlen; pos] =>
+      match oxfer_of (q_op c) k with
+      | Some _ =>
+          (dlen <? W64) && (pos <? W64)
+          && (if (k =? 0) || (k =? 1) then pos <=? dlen else true)
+          && (if k =? 6 then pos <=? dlen + 1 else true)
+          && (if k =? 2 then dlen + IoEnd.tbytes t <? W64 else true)
+      | None => false end
+  | _, _ => false
+  end.
+
 (* ------------------------------------------------------------------ GuestMemoryRegion *)
 Definition region_cls (m : mode) (g n op a b : N) : N :=
   match op with
@@ -195,6 +294,15 @@ Definition bitmap_ops_cls (bm : Bitmap.bitmap) (op a b c : N) : N :=
   | 56 => cls_out cls0 (Bitmap.bs_mark_dirty_o bm (Bitmap.bs_new c) a b)
   | 57 => cls_out cls0 (Bitmap.bs_dirty_at_o bm (Bitmap.bs_new c) a)
   | 58 => cls_out cls0 (Bitmap.bs_dirty_at_o bm (Bitmap.bs_slice_at (Bitmap.bs_new c) a) b)
+  (* nested BaseSlices: the offsets add up with wrapping_add (slice.rs:66-71) *)
+  | 70 => cls_out cls0 (Bitmap.view_mark_o Bitmap.RDirect [c; a; b] bm a b)
+  | 71 => cls_out cls0 (Bitmap.view_dirty_at_o Bitmap.RDirect [c; a; b] bm b)
+  (* impl Bitmap for Option<B> (bitmap/mod.rs:89-109) *)
+  | 72 => cls_out cls0 (Bitmap.view_mark_o Bitmap.RSome [] bm a b)
+  | 73 => cls_out cls0 (Bitmap.view_dirty_at_o Bitmap.RSome [] bm a)
+  | 74 => cls_out cls0 (Bitmap.view_mark_o Bitmap.RSome [c] bm a b)
+  | 75 => cls_out cls0 (Bitmap.view_dirty_at_o Bitmap.RSome [c] bm a)
+  | 76 => cls_out cls0 (Bitmap.view_mark_o Bitmap.RNone [c] bm a b)
   | _ => 2
   end.
 Definition bitmap_cls (bs ps op a b c : N) : N := bitmap_ops_cls (Bitmap.bm_new bs ps) op a b c.
@@ -209,12 +317,21 @@ Definition bitmap_enl_cls (m : mode) (bs ps k op a b c : N) : N :=
 Definition run_C07 (c : case07) : N :=
   let m := q_mode c in let op := q_op c in let a := q_a c in let b := q_b c in
   if (21 <=? op) && (op <=? 24) then stream_cls c else
+  if (61 <=? op) && (op <=? 64) then own_cls c else
   match q_tgt c, q_par c with
   | 0, [pre; n] =>
       if op =? 9 then cls_dres (Volatile.compute_end_offset n a b)
       else if op =? 10 then cls_dres (Volatile.compute_offset a b)
       else if op <=? 12 then geom_cls c
-      else data_cls m pre n op (q_ty c) a b
+      else if op <=? 20 then data_cls m pre n op (q_ty c) a b
+      else copy_cls m pre n op (q_ty c) a b (q_c c)
+  | 8, [pre; oc] =>
+      let n := osize oc in
+      if op =? 9 then cls_dres (Volatile.compute_end_offset n a b)
+      else if op =? 10 then cls_dres (Volatile.compute_offset a b)
+      else if op <=? 12 then geom_cls c
+      else if op <=? 20 then data_cls m pre n op (q_ty c) a b
+      else copy_cls m pre n op (q_ty c) a b (q_c c)
   | 1, [_; n] =>
       if op =? 9 then cls_dres (Volatile.compute_end_offset n a b)
       else if op =? 10 then cls_dres (Volatile.compute_offset a b)
@@ -223,6 +340,7 @@ Definition run_C07 (c : case07) : N :=
       if op =? 9 then cls_dres (Volatile.compute_end_offset n a b)
       else if op <=? 12 then geom_cls c
       else if op <=? 20 then data_cls m 0 n op (q_ty c) a b
+      else if (65 <=? op) && (op <=? 69) then copy_cls m 0 n op (q_ty c) a b (q_c c)
       else region_cls m g n op a b
   | 3, par | 4, par =>
       match layout_of par with
@@ -239,14 +357,16 @@ Definition run_C07 (c : case07) : N :=
    about wf07).  small07: the additional size bounds of cases that are actually executed. *)
 Definition op_ok (tgt op : N) : bool :=
   match tgt with
-  | 0 => op <=? 24
+  | 0 => (op <=? 24) || ((61 <=? op) && (op <=? 69))
   | 1 => op <=? 10
   | 2 => (op =? 0) || ((4 <=? op) && (op <=? 9)) || ((11 <=? op) && (op <=? 24)) || ((30 <=? op) && (op <=? 37))
-  | 3 => ((13 <=? op) && (op <=? 24)) || ((40 <=? op) && (op <=? 49))
+         || ((61 <=? op) && (op <=? 69))
+  | 3 => ((13 <=? op) && (op <=? 24)) || ((40 <=? op) && (op <=? 49)) || ((61 <=? op) && (op <=? 64))
   | 4 => ((13 <=? op) && (op <=? 20)) || ((40 <=? op) && (op <=? 49))
-  | 5 => (50 <=? op) && (op <=? 58)
+  | 5 => ((50 <=? op) && (op <=? 58)) || ((70 <=? op) && (op <=? 76))
   | 6 => op =? 60
-  | 7 => (50 <=? op) && (op <=? 58)
+  | 7 => ((50 <=? op) && (op <=? 58)) || ((70 <=? op) && (op <=? 76))
+  | 8 => (op <=? 20) || ((65 <=? op) && (op <=? 69))
   | _ => false
   end.
 Definition reg_okb (top : N) (p : N * N) : bool := (0 <? snd p) && (snd p <? W64) && (fst p + snd p <=? top).
@@ -272,14 +392,16 @@ Definition wf_tgt (c : case07) : bool :=
   | 5, [bs; ps] => (0 <? ps) && (bs <? W64)
   | 7, [bs; ps; k] => (0 <? ps) && (bs + k <? W64)       (* the sum fits usize: enlarge's `+=` does not overflow *)
   | 6, [] => true
+  | 8, [pre; oc] => (pre <=? 4080) && (oc <=? 6) && (pre mod oalign oc =? 0) && (HB + pre + osize oc <=? ISZ_MAX)
   | _, _ => false
   end.
 Definition wf07 (c : case07) : bool :=
-  op_ok (q_tgt c) (q_op c) && wf_tgt c && (q_ty c <=? 3)
+  op_ok (q_tgt c) (q_op c) && wf_tgt c && (q_ty c <=? (if (65 <=? q_op c) && (q_op c <=? 69) then 5 else 3))
   && (q_a c <? W64) && (q_b c <? W64) && (q_c c <? W64)
   && (if (13 <=? q_op c) && (q_op c <=? 16) then q_b c <=? ISZ_MAX else true)
   && (if (21 <=? q_op c) && (q_op c <=? 24)
       then match case14_of c with Some c14 => Suite.C14.wf14 c14 | None => false end
+      else if (61 <=? q_op c) && (q_op c <=? 64) then own_wf c
       else match q_x c with [] => true | _ => false end).
 
 Definition SMALL : N := 4096.
@@ -292,12 +414,17 @@ Definition small_par (c : case07) : bool :=
       match layout_of par with Some L => forallb (fun p => snd p <=? SMALL) L | None => false end
   | 5, [bs; ps] => (0 <? ps) && (div_ceil bs ps <=? 4096)
   | 7, [bs; ps; k] => (0 <? ps) && (bs <? W64) && (k <? W64) && (div_ceil bs ps <=? 4096) && (div_ceil (bs + k) ps <=? 4096)
+  | 8, [pre; _] => pre <=? SMALL
   | _, _ => true
   end.
 Definition small07 (c : case07) : bool :=
   small_par c && (length (q_x c) <=? 64)%nat
   && (if (13 <=? q_op c) && (q_op c <=? 16) then q_b c <=? SMALL else true)
-  && (if (21 <=? q_op c) && (q_op c <=? 24) then q_c c <=? SMALL else true).
+  && (if (21 <=? q_op c) && (q_op c <=? 24) then q_c c <=? SMALL else true)
+  && (if (61 <=? q_op c) && (q_op c <=? 64)
+      then match q_x c with [k; dlen; pos] => (dlen <=? SMALL) && ((3 <=? k) && (k <=? 5) || (pos <=? SMALL + 1)) | _ => false end
+      else true)
+  && (if (65 <=? q_op c) && (q_op c <=? 68) then q_c c <=? SMALL else true).
 
 (* ------------------------------------------------------------------ tokens *)
 Definition suite_C07 (inp obs : list tok) : verdict :=
